@@ -1,5 +1,5 @@
 Require Extraction.
 Require Import ExtrOcamlBasic.
-From SCMO Require Import Lib.Val Model.C05.
-Definition run := run_C05.
+From SCMO Require Import Lib.Val Model.C05 Model.C05x.
+Definition run := run_C05x.
 Extraction "c05_model.ml" run.
